@@ -195,14 +195,18 @@ pub struct EncOpts {
 	/// Not claimed to be the published layout (the harness's own decoder refuses it) — only used where the
 	/// consistency of what the real reader returns is checked.
 	pub pooled_blobs: bool,
+	/// the two zoom bytes of the header say less than the block index (an encoder that leaves them 0 / records
+	/// only its first level / appends levels later): like `pooled_blobs` only used where the reader is compared
+	/// with itself — what it serves comes from the block index
+	pub sloppy_zoom_bytes: bool,
 }
 
 impl EncOpts {
 	pub fn random(rng: &mut Rng) -> EncOpts {
-		EncOpts { partial_blocks: rng.chance(0.6), shuffle_blocks: rng.chance(0.6), shuffle_tiles: rng.chance(0.5), dedup: rng.chance(0.5), no_meta: rng.chance(0.25), gaps: rng.chance(0.3), nested_ranges: rng.chance(0.4), index_first: rng.chance(0.3), pooled_blobs: false }
+		EncOpts { partial_blocks: rng.chance(0.6), shuffle_blocks: rng.chance(0.6), shuffle_tiles: rng.chance(0.5), dedup: rng.chance(0.5), no_meta: rng.chance(0.25), gaps: rng.chance(0.3), nested_ranges: rng.chance(0.4), index_first: rng.chance(0.3), pooled_blobs: false, sloppy_zoom_bytes: false }
 	}
 	pub fn plain() -> EncOpts {
-		EncOpts { partial_blocks: false, shuffle_blocks: false, shuffle_tiles: false, dedup: false, no_meta: false, gaps: false, nested_ranges: false, index_first: false, pooled_blobs: false }
+		EncOpts { partial_blocks: false, shuffle_blocks: false, shuffle_tiles: false, dedup: false, no_meta: false, gaps: false, nested_ranges: false, index_first: false, pooled_blobs: false, sloppy_zoom_bytes: false }
 	}
 }
 
@@ -365,8 +369,15 @@ fn encode_inner(ts: &TileSet, o: &EncOpts, rng: &mut Rng) -> Vec<u8> {
 		Comp::Brotli => 2,
 	});
 	let levels = ts.levels();
-	h.push(*levels.iter().next().unwrap_or(&0));
-	h.push(*levels.iter().next_back().unwrap_or(&0));
+	let (zlo, zhi) = (*levels.iter().next().unwrap_or(&0), *levels.iter().next_back().unwrap_or(&0));
+	if o.sloppy_zoom_bytes {
+		let (a, b) = *rng.pick(&[(0u8, 0u8), (zlo, zlo), (zhi, zhi), (zhi, zlo)]);
+		h.push(a);
+		h.push(b);
+	} else {
+		h.push(zlo);
+		h.push(zhi);
+	}
 	for v in geo_bounds(ts) {
 		h.extend_from_slice(&((v * 1e7) as i32).to_be_bytes());
 	}
